@@ -86,7 +86,7 @@ def check_execution(cfg, ex, marks, leaked):
     start = marks.get("job_start", 0)
     delivered_requests = []   # (log index, n) for every 'Resend: n' delivered to the host
     for i, (k, l) in enumerate(dev.log):
-        if k == "deliver" and l.lower().startswith("resend"):
+        if k == "deliver" and (l.lower().startswith("resend") or l.startswith("rs")):
             delivered_requests.append((i, int(re.findall(r"-?\d+", l)[0])))
     numbered = []
     first_numbered = None
@@ -197,6 +197,12 @@ def fault_patterns(max_index, max_faults):
 def plan(tier):
     items = []
     if tier == "quick":
+        for greeting in (None, "start"):
+            for corrupt in fault_patterns(5, 2):
+                base = {"job": "J3", "dialect": "C", "greeting": greeting, "eager": False, "corrupt": corrupt}
+                items.append(({**base, "line_points": True}, 0, None))
+                if corrupt == (1,):
+                    items.append(({**base, "line_points": False}, 1, None))
         for dialect in ("A", "B"):
             for greeting in (None, "start"):
                 for eager in (False, True):
@@ -211,7 +217,7 @@ def plan(tier):
                             items.append(({**base, "line_points": False}, 2, None))
     else:
         for job in ("J3", "J4", "J2"):
-            for dialect in ("A", "B"):
+            for dialect in ("A", "B", "C"):
                 for greeting in (None, "start"):
                     for eager in (False, True):
                         for corrupt in fault_patterns(8 if job != "J2" else 4, 3 if job == "J3" else 2):
